@@ -184,6 +184,7 @@ type State struct {
 	siteCtr int // per-path counter naming fork sites
 	reached []string
 	sharded bool
+	entropy []entropyMemo
 	approx  bool // the path went through an over-approximating model
 	dom     *lmap[*Term, *[4]uint64] // feasible-value superset per 8-bit variable
 	multi   *lmap[*Term, bool]       // variables constrained together with other variables
@@ -192,6 +193,11 @@ type State struct {
 	tag     string
 	asserts int // number of vfAssert evaluated on this path (non-trivial)
 	log     *accessLog
+}
+
+type entropyMemo struct {
+	t *Term
+	f float64
 }
 
 type inputRec struct {
